@@ -206,6 +206,10 @@ def main(argv=None) -> int:
     exit_code = 0
     lines = []
     replay_paths = []
+    if os.path.isdir(REPLAY_DIR):
+        for name in os.listdir(REPLAY_DIR):
+            if name.startswith(prop_id + "-"):
+                os.remove(os.path.join(REPLAY_DIR, name))
     if new_violations:
         os.makedirs(REPLAY_DIR, exist_ok=True)
         by_key: dict[str, list[dict]] = {}
